@@ -15,6 +15,8 @@ import LMV.Driver.Util
     F <pipe>           buf = score(pssm, seq)
     S <arm>            buf32 = ScoringMatrix::score(seq)          (public API, forced dispatcher arm; f32)
     P <C> <pos>        ScoringMatrix::score_position(seq, pos)    (f32)
+    M <M'> <M'·K entries>  the following calls use this motif, on the same sequence objects (configured again
+                       with `configure(&pssm)` under `G`) and the same score buffers; no answer
 
   pipe: gen16 gen32 sse16 sse32 avx2 disp-generic disp-sse2 disp-avx2
   Answer per op (joined by " ; "): `panic`, the bits of a single score, or
@@ -97,43 +99,56 @@ def onBuf {α : Type} (cr : Carrier α) (pipe : String) (st : St α)
     | .ok sc => ({ st with b32 := sc }, observe cr sc)
     | .error _ => ({ st with b32 := Score.empty }, "panic")
 
-partial def runOps {α : Type} {K : Nat} (cr : Carrier α) (isU8 : Bool) (pssm : Mat α K)
+/-- `M <M'> <M'·K entries>`: the motif that the following calls use -/
+def readPssm {α : Type} (cr : Carrier α) (K M : Nat) (toks : List String) : Mat α K × List String :=
+  let (ents, rest) := takeNats toks (M * K)
+  let earr := ents.toArray
+  (Mat.ofFn M fun r c => cr.ofNat (earr.getD (r * K + c) 0), rest)
+
+/-- `configure(&pssm)` (`G`); an explicit `configure_wrap(w)` is done once, before the first call -/
+def reconf {C : Nat} (A : Alphabet) (cfg : String) (M : Nat) (st : Striped C) : Striped C :=
+  if cfg == "G" then st.configure A.dflt M else st
+
+partial def runOps {α : Type} (cr : Carrier α) (isU8 : Bool) (A : Alphabet) (cfg : String) (pssm : Mat α A.K)
     (s16 : Striped 16) (s32 : Striped 32) : List String → St α → List String → List String
   | [], _, acc => acc.reverse
   | "R" :: pipe :: a :: b :: rest, st, acc =>
     let (a, b) := (parseNat! a, parseNat! b)
     let (st', o) := onBuf cr pipe st (rows16 cr isU8 pipe pssm s16 a b) (rows32 cr isU8 pipe pssm s32 a b)
-    runOps cr isU8 pssm s16 s32 rest st' (o :: acc)
+    runOps cr isU8 A cfg pssm s16 s32 rest st' (o :: acc)
   | "I" :: pipe :: rest, st, acc =>
     let (st', o) := onBuf cr pipe st
       (scoreInto (fun a b sc => rows16 cr isU8 pipe pssm s16 a b sc) s16)
       (scoreInto (fun a b sc => rows32 cr isU8 pipe pssm s32 a b sc) s32)
-    runOps cr isU8 pssm s16 s32 rest st' (o :: acc)
+    runOps cr isU8 A cfg pssm s16 s32 rest st' (o :: acc)
   | "F" :: pipe :: rest, st, acc =>
     let (st', o) := onBuf cr pipe st
       (fun _ => scoreFull (fun a b sc => rows16 cr isU8 pipe pssm s16 a b sc) s16)
       (fun _ => scoreFull (fun a b sc => rows32 cr isU8 pipe pssm s32 a b sc) s32)
-    runOps cr isU8 pssm s16 s32 rest st' (o :: acc)
+    runOps cr isU8 A cfg pssm s16 s32 rest st' (o :: acc)
   | "S" :: arm :: rest, st, acc =>
     -- `ScoringMatrix::score` = `Pipeline::dispatch().score(self, seq)`
     let (st', o) := onBuf cr "disp" st (fun sc => .ok sc)
       (fun _ => scoreFull (fun a b sc => dispatchF32 (armOf arm) cr.zero cr.add pssm s32 a b sc) s32)
-    runOps cr isU8 pssm s16 s32 rest st' (o :: acc)
+    runOps cr isU8 A cfg pssm s16 s32 rest st' (o :: acc)
   | "P" :: c :: pos :: rest, st, acc =>
     let r := if c == "16" then scorePosition cr.zero cr.add pssm s16 (parseNat! pos)
              else scorePosition cr.zero cr.add pssm s32 (parseNat! pos)
     let o := match r with | .ok v => toString (cr.toNat v) | .error _ => "panic"
-    runOps cr isU8 pssm s16 s32 rest st (o :: acc)
+    runOps cr isU8 A cfg pssm s16 s32 rest st (o :: acc)
+  | "M" :: m :: rest, st, acc =>
+    -- another motif on the same sequence objects and the same score buffers (the history `st` is kept:
+    -- the next call resizes / overwrites the buffer the previous motif filled)
+    let M := parseNat! m
+    let (pssm', rest) := readPssm cr A.K M rest
+    runOps cr isU8 A cfg pssm' (reconf A cfg M s16) (reconf A cfg M s32) rest st acc
   | _, _, _ => ["bad-case"]
 
 def runCase {α : Type} (cr : Carrier α) (isU8 : Bool) (A : Alphabet) (toks : List String) : String :=
   match toks with
   | m :: rest =>
     let M := parseNat! m
-    let K := A.K
-    let (ents, rest) := takeNats rest (M * K)
-    let earr := ents.toArray
-    let pssm : Mat α K := Mat.ofFn M fun r c => cr.ofNat (earr.getD (r * K + c) 0)
+    let (pssm, rest) := readPssm cr A.K M rest
     match rest with
     | cfg :: l :: rest =>
       let (syms, rest) := takeNats rest (parseNat! l)
@@ -141,7 +156,7 @@ def runCase {α : Type} (cr : Carrier α) (isU8 : Bool) (A : Alphabet) (toks : L
         if cfg == "G" then st.configure A.dflt M else st.configureWrap A.dflt (parseNat! cfg)
       let s16 : Striped 16 := conf (Striped.stripeGeneric A.dflt syms Striped.empty)
       let s32 : Striped 32 := conf (Striped.stripeGeneric A.dflt syms Striped.empty)
-      " ; ".intercalate (runOps cr isU8 pssm s16 s32 rest ⟨Score.empty, Score.empty⟩ [])
+      " ; ".intercalate (runOps cr isU8 A cfg pssm s16 s32 rest ⟨Score.empty, Score.empty⟩ [])
     | _ => "bad-case"
   | _ => "bad-case"
 
